@@ -85,7 +85,8 @@ def case_monotone(region, loop_bound=25):
         if 'raise' in (k1, k2):
             return dict(outcome='raise', checks=[('no exception', False)],
                         cex=lambda m: {'kind': 'monotone', 'a': hx.mval(m, a), 'b': hx.mval(m, b)})
-        return dict(outcome='ret', checks=[('monotone', zint(r1) <= zint(r2))],
+        return dict(outcome='ret', checks=[('monotone', zint(r1) <= zint(r2)),
+                                           ('second of two conversions in a row still equals the official scale', zint(r2) == ref(b))],
                     cex=lambda m: {'kind': 'monotone', 'a': hx.mval(m, a), 'b': hx.mval(m, b),
                                    'f(a)': hx.mval(m, zint(r1)), 'f(b)': hx.mval(m, zint(r2))})
     return hx.explore_case(path, dict(loop_bound=loop_bound))
